@@ -323,6 +323,25 @@ func (s *Schema) ManifestV2() []byte {
 	return b
 }
 
+// ManifestV2Split renders a manifest that owns the types for which own() is true and lists every other type of the
+// schema as a dependency type (the way a manifest of a library built on other generated libraries looks).
+func (s *Schema) ManifestV2Split(packageRoot string, own func(*Named) bool, deps func(*Named) bool) []byte {
+	in, dep := []any{}, []any{}
+	for _, n := range s.Types {
+		switch {
+		case own(n):
+			in = append(in, namedJSON(n))
+		case deps(n):
+			dep = append(dep, namedJSON(n))
+		}
+	}
+	b, err := json.MarshalIndent(map[string]any{"packageRoot": packageRoot, "inputDataTypes": in, "dependencyDataTypes": dep, "resources": []any{}}, "", " ")
+	if err != nil {
+		panic(err)
+	}
+	return b
+}
+
 // flattenedFieldsV1: the root module's spec lists the fields of included records inline, each marked with the
 // directly included record it comes through.
 func (s *Schema) flattenedFieldsV1(n *Named) []any {
